@@ -298,6 +298,44 @@ fn device_cases(name: Option<&str>, dev: &Device, placement: &'static str, rng: 
             if usage == u64::MAX {
                 continue;
             }
+            // flash filled by real instructions that come out of macro calls, with the instructions whose length
+            // depends on the part (lds/sts: two words, one on the reduced core) among them
+            if mem == "flash" && placement == "top" && usage >= 8 && usage <= 9000 {
+                let lds_words: u64 = if devices::forbidding_flag(dev, "lds").is_some() { 0 } else if devices::is_reduced(dev) { 1 } else { 2 };
+                let per_call = 2 + 2 * lds_words;
+                let mut body = String::from(".macro fill_some\n\tnop\n");
+                if lds_words > 0 {
+                    body.push_str("\tlds r16, @0\n\tsts @0, r17\n");
+                }
+                body.push_str("\trjmp pc+1\n.endm\n.macro fill_more\n\tfill_some @0\n\tfill_some @0 + 1\n.endm\n");
+                let mut left = usage;
+                while left >= 2 * per_call {
+                    body.push_str("\tfill_more 0x60\n");
+                    left -= 2 * per_call;
+                }
+                if left >= per_call {
+                    body.push_str("\tfill_some 0x62\n");
+                    left -= per_call;
+                }
+                for _ in 0..left {
+                    body.push_str("\tnop\n");
+                }
+                out.push(Case {
+                    device: name.map(|s| s.to_string()),
+                    prefix: prefix.clone(),
+                    include_dir: None,
+                    mem,
+                    method: "instructions-from-macro-calls",
+                    usage,
+                    cap,
+                    body,
+                    exp_flash_words: dev.flash_size,
+                    exp_eeprom: dev.eeprom_size,
+                    exp_ram: dev.ram_size,
+                    source_of_cap: "table",
+                    placement,
+                });
+            }
             for (mi, m) in methods(mem).iter().enumerate() {
                 if *m == "org+jmp" && devices::forbidding_flag(dev, "jmp").is_some() {
                     continue;
@@ -599,7 +637,7 @@ pub fn run(ctx: &Ctx) -> i32 {
     let _ = std::fs::remove_dir_all(scratch_dir());
     fw::finish(
         ctx,
-        "every device of DEVICES and the no-device default x {flash, EEPROM, RAM} x usage {capacity-1, capacity, capacity+1} x fill methods, the `.device` line at top level and (one placement per device in quick, all four in thorough) inside a called macro, a macro called by a macro with the name as argument, a taken .if and the .else of an untaken .ifdef, or followed by `.equ` definitions of the part files' symbol names (SRAM_SIZE, E2END, FLASHEND, RAMEND ... in mixed case) with much smaller / much larger values (.org + one item, .org + two-word instruction straddling the limit, data runs of mixed widths, instruction runs, .byte reservations, .org in dseg/eseg, interleaved data segments); every shipped includes/*def.inc whose device is in the table built through build_file with capacities taken from its #pragma AVRPART MEMORY lines; RAM start via data-segment labels; unknown and repeated .device; usages of 2^16/2^31/2^32/2^33/2^40 (+0,1,8) units in every memory, which must fail although their low bits look legal; distinct_nontrivial = distinct (device, capacity source, memory, method, usage-capacity) tuples",
+        "every device of DEVICES and the no-device default x {flash, EEPROM, RAM} x usage {capacity-1, capacity, capacity+1} x fill methods, the `.device` line at top level and (one placement per device in quick, all four in thorough) inside a called macro, a macro called by a macro with the name as argument, a taken .if and the .else of an untaken .ifdef, or followed by `.equ` definitions of the part files' symbol names (SRAM_SIZE, E2END, FLASHEND, RAMEND ... in mixed case) with much smaller / much larger values (.org + one item, .org + two-word instruction straddling the limit, on parts of up to 9000 words flash filled by nop/lds/sts/rjmp coming out of nested macro calls - lds/sts counting one word on the reduced core -, data runs of mixed widths, instruction runs, .byte reservations, .org in dseg/eseg, interleaved data segments); every shipped includes/*def.inc whose device is in the table built through build_file with capacities taken from its #pragma AVRPART MEMORY lines; RAM start via data-segment labels; unknown and repeated .device; usages of 2^16/2^31/2^32/2^33/2^40 (+0,1,8) units in every memory, which must fail although their low bits look legal; distinct_nontrivial = distinct (device, capacity source, memory, method, usage-capacity) tuples",
         &[
             "for table rows without a shipped part file and for the defaults only enforced == reported == table row can be checked",
             "PROG_FLASH in the part files is in bytes (two per flash word)",
